@@ -285,6 +285,9 @@ func (st *Settings) Deserialize(fr *FrameHeader) error {
 		return NewGoAwayError(FrameSizeError, "settings with ack and payload")
 	}
 
+	// kept so that the receiver can apply just the parameters that were sent
+	st.rawSettings = append(st.rawSettings[:0], fr.payload...)
+
 	return st.Read(fr.payload)
 }
 
